@@ -492,6 +492,12 @@ pub fn replay_case(case: &Value, mat: Mat) -> Option<Value> {
     if p["gz"].as_bool().unwrap_or(false) && !mat.gz {
         return None;
     }
+    // a limit of 10^9 units and more stands for "larger than anything a file will ever be": the top of the u64 range
+    let limit_bytes: u64 = if limit >= 1_000_000_000 {
+        [u64::MAX, 1 << 63, (1 << 63) + 5, u64::MAX / 2 + 1][(mat.unit + case["ops"].as_array().unwrap().len()) % 4]
+    } else {
+        limit * mat.unit as u64
+    };
     let scratch = Scratch::new("roll");
     let other = if mat.cross_mount {
         // crash images are single-directory copies: histories with process death are left to the other materialisations
@@ -554,8 +560,8 @@ pub fn replay_case(case: &Value, mat: Mat) -> Option<Value> {
                 // more record and is dropped (Rolling.tla, Overlap)
                 let predecessor = if overlap { appender.take() } else { drop(appender.take()); None };
                 let trigger: Box<dyn Trigger> = match trig.as_str() {
-                    "size" => Box::new(SizeTrigger::new(limit * mat.unit as u64)),
-                    "startup" => Box::new(OnStartUpTrigger::new(limit * mat.unit as u64)),
+                    "size" => Box::new(SizeTrigger::new(limit_bytes)),
+                    "startup" => Box::new(OnStartUpTrigger::new(limit_bytes)),
                     t => Box::new(ScriptedTrigger { pre: t == "pre", decisions: decisions.clone(), consulted: consulted.clone() }),
                 };
                 let roller: Box<dyn Roll> = if window {
@@ -578,8 +584,8 @@ pub fn replay_case(case: &Value, mat: Mat) -> Option<Value> {
                     d.insert("faulty", FaultyDeserializer { script: enc_script.clone() });
                     d.insert("noop", NoopRollerDeserializer);
                     let trig_cfg = match trig.as_str() {
-                        "size" => json!({"kind": "size", "limit": limit * mat.unit as u64}),
-                        "startup" => json!({"kind": "onstartup", "min_size": limit * mat.unit as u64}),
+                        "size" => json!({"kind": "size", "limit": limit_bytes}),
+                        "startup" => json!({"kind": "onstartup", "min_size": limit_bytes}),
                         t => json!({"kind": "scripted", "pre": t == "pre"}),
                     };
                     let roller_cfg = if window {
